@@ -15,10 +15,12 @@ import (
 	"github.com/elk-language/elk/bitfield"
 	"github.com/elk-language/elk/types/checker"
 	"github.com/elk-language/elk/value"
+	"github.com/elk-language/elk/verifrt"
 	"github.com/elk-language/elk/vm"
 
 	"verifharness/elkrun"
 	"verifharness/engine"
+	"verifharness/sched"
 )
 
 // countCtx is a context whose Done channel closes when Done() has been called k times.
@@ -150,7 +152,7 @@ func main() {
 	engine.Main(&engine.Spec{
 		Prop:  "C33",
 		Level: "exploration",
-		Rule: "20 non-terminating program shapes (every loop kind, loops inside methods/closures/generators/do-finally/do-catch, recursion, tail recursion) x cancellation at the k-th abort poll for k in 1..40 (thorough 1..200), plus 7 blocking shapes (channel pop/push/for-in/select with nothing ready) x {cancelled at the k-th poll for k in 1..6, cancelled by another goroutine while blocked}; " +
+		Rule: "20 non-terminating program shapes (every loop kind, loops inside methods/closures/generators/do-finally/do-catch, recursion, tail recursion) x cancellation at the k-th abort poll for k in 1..40 (thorough 1..200), plus 7 blocking shapes (channel pop/push/for-in/select with nothing ready) x {cancelled at the k-th poll for k in 1..6, cancelled by another goroutine while blocked}; plus 8 scenarios of 2-3 threads blocking in PopCtx/PushCtx/NextValueCtx on one channel racing with each other and with a canceller thread, every schedule with at most 2 (thorough 3) preemptions under the controlled scheduler (value/channel_of_value.go instrumented by build overlay); " +
 			"oracle: the run ends with ExecutionAbortedError at exactly the k-th poll (a stack-limit error before that poll is accepted for recursion), never runs on or hangs (watchdog) and never panics; non-trivial = every (shape, k) pair (enumerated without repetition)",
 		Assume:          []string{"cancellation time is discretised to abort-check polls (ctx.Done() calls)", "a hang is decided by the engine's 40 s per-case watchdog, re-run alone with 120 s before it is believed"},
 		HangIsViolation: true,
@@ -193,6 +195,10 @@ func main() {
 					elkrun.ResetRuntime()
 					r.Sample(map[string]any{"shape": sh.name, "source": sh.src, "k": fmt.Sprintf("1..%d", maxK)})
 				})
+			}
+			for _, sc := range schedScens {
+				sc := sc
+				c.Case("sched/"+sc.name, func(r *engine.R) { exploreSched(r, sc, c.Thorough) })
 			}
 			for _, sh := range blocking {
 				sh := sh
@@ -241,4 +247,112 @@ func main() {
 			}
 		},
 	})
+}
+
+// ---------------------------------------------------------------------------------------------
+// E1 part: blocking channel operations racing with other threads and with the cancellation, under the
+// controlled scheduler (value/channel_of_value.go is instrumented through the build overlay). Every schedule
+// up to a preemption bound; after the canceller has run, every thread must return (no deadlock) and a thread
+// that did not complete its operation must report ExecutionAbortedError.
+
+type schedScen struct {
+	name string
+	cap  int
+	pre  int      // values buffered before the threads start
+	ops  []string // one operation per thread: pop | push | next
+}
+
+var schedScens = []schedScen{
+	{"two-pops-one-buffered-value", 1, 1, []string{"pop", "pop"}},
+	{"three-pops-one-buffered-value", 2, 1, []string{"pop", "pop", "pop"}},
+	{"two-nexts-one-buffered-value", 1, 1, []string{"next", "next"}},
+	{"pop-and-next-one-value", 1, 1, []string{"pop", "next"}},
+	{"two-pushes-one-free-slot", 1, 0, []string{"push", "push"}},
+	{"two-pushes-full-one-pop", 1, 1, []string{"push", "push", "pop"}},
+	{"pops-on-empty-unbuffered", 0, 0, []string{"pop", "pop"}},
+	{"push-and-pop-unbuffered-extra-pop", 0, 0, []string{"push", "pop", "pop"}},
+}
+
+func exploreSched(r *engine.R, sc schedScen, thorough bool) {
+	var results []string
+	run := func(prefix []int, opts verifrt.Options) (*verifrt.Exec, string) {
+		res := make([]string, len(sc.ops))
+		x := verifrt.Run(func() {
+			ctx, cancel := context.WithCancel(context.Background())
+			ch := value.NewChannelOfValue(sc.cap)
+			for i := 0; i < sc.pre; i++ {
+				ch.Push(value.SmallInt(100 + i).ToValue())
+			}
+			done := 0
+			for i, op := range sc.ops {
+				i, op := i, op
+				verifrt.Go(func() {
+					var err value.Value
+					switch op {
+					case "pop":
+						_, err = ch.PopCtx(ctx)
+					case "next":
+						_, err = ch.NextValueCtx(ctx)
+					case "push":
+						err = ch.PushCtx(ctx, value.SmallInt(i).ToValue())
+					}
+					switch {
+					case err.IsUndefined():
+						res[i] = "ok"
+					case err == value.ExecutionAbortedError.ToValue():
+						res[i] = "aborted"
+					default:
+						res[i] = "err:" + err.Inspect()
+					}
+					done++
+				})
+			}
+			verifrt.Go(func() { // the canceller
+				verifrt.Yield()
+				cancel()
+				verifrt.Yield()
+			})
+			verifrt.Await("join", func() bool { return done == len(sc.ops) })
+		}, prefix, opts)
+		results = res
+		return x, x.Describe() + " | " + strings.Join(res, ",")
+	}
+	bound := 2
+	if thorough {
+		bound = 3
+	}
+	outcomes := map[string]bool{}
+	st := sched.Explore(sched.Config{Bound: bound, MaxExecs: 2000000, Deadline: time.Now().Add(30 * time.Second), Opts: verifrt.Options{NoEvents: true}}, run, func(x *verifrt.Exec, outcome string, _ int) {
+		outcomes[outcome] = true
+		bad := ""
+		switch {
+		case x.Diverged != "":
+			bad = "INFRA replay divergence"
+		case x.Deadlock:
+			bad = "blocked forever after cancellation"
+		case x.Panic != "" || x.Fatal != "":
+			bad = "host crash: " + x.Panic + x.Fatal
+		default:
+			for _, s := range results {
+				if s != "ok" && s != "aborted" {
+					bad = "unexpected result " + s
+				}
+			}
+		}
+		if bad != "" {
+			r.Violation("sched scenario="+sc.name+" "+strings.SplitN(bad, ":", 2)[0], fmt.Sprintf("channel capacity %d, %d value(s) buffered, threads %v + a canceller\n%s\noutcome: %s\nschedule: %v", sc.cap, sc.pre, sc.ops, bad, outcome, x.ChoiceList()),
+				map[string]any{"scenario": sc.name, "schedule": x.ChoiceList()})
+		}
+	})
+	r.Eval(st.Execs)
+	r.NT(1)
+	r.Count("sched_executions", st.Execs)
+	r.Count("sched_transitions", st.Transitions)
+	for o := range outcomes {
+		r.Outcome("sched:" + strings.SplitN(o, " ", 2)[0])
+	}
+	if st.Capped {
+		r.Capped("budget hit: sched/" + sc.name)
+	}
+	r.Sample(map[string]any{"sched_scenario": sc.name, "executions": st.Execs, "distinct_outcomes": len(outcomes)})
 }
